@@ -29,9 +29,39 @@ def read_tree(d):
     return out
 
 
+# a schema without any <message> ("common types" file): sbeppc still creates the messages/ directory but never opens a
+# file in it, so only the directory creation itself can report an obstruction there (seeded change C20-5)
+TYPES_ONLY = """<?xml version="1.0" encoding="UTF-8"?>
+<sbe:messageSchema xmlns:sbe="http://fixprotocol.io/2016/sbe" package="common_types" id="7" version="1" byteOrder="littleEndian">
+    <types>
+        <composite name="messageHeader">
+            <type name="blockLength" primitiveType="uint16"/>
+            <type name="templateId" primitiveType="uint16"/>
+            <type name="schemaId" primitiveType="uint16"/>
+            <type name="version" primitiveType="uint16"/>
+        </composite>
+        <type name="price" primitiveType="int64" presence="optional"/>
+        <enum name="side" encodingType="char"><validValue name="Buy">B</validValue><validValue name="Sell">S</validValue></enum>
+        <set name="flags" encodingType="uint8"><choice name="a">0</choice><choice name="b">7</choice></set>
+        <composite name="pair"><ref name="p" type="price"/><ref name="s" type="side"/></composite>
+    </types>
+</sbe:messageSchema>
+"""
+
+
+def list_dirs(d):
+    """every directory of a generated tree, relative, including ones that hold no file"""
+    out = []
+    for root, dirs, _ in os.walk(d):
+        for x in dirs:
+            out.append(os.path.relpath(os.path.join(root, x), d))
+    return sorted(out)
+
+
 def schemas(tier, seed):
     from . import c12, c16
-    out = [("c12-dimension-matrix", c12.make_schema()),
+    out = [("types-only", TYPES_ONLY),
+           ("c12-dimension-matrix", c12.make_schema()),
            ("repo:big_endian_schema", C.read_text(os.path.join(C.REPO, "test/schemas/big_endian_schema.xml")))]
     if tier != "quick":
         out.append(("c16-scalars", c16.build_cases()[0]))
@@ -179,7 +209,7 @@ def main():
             paths = sorted(ref)
             orng = C.rng_for(rep.seed, "c20-obstruct", name)
             sample = paths if rep.tier != "quick" else sorted(set(orng.sample(paths, min(6, len(paths))) + paths[:1] + paths[-1:]))
-            dirs = sorted({os.path.dirname(p_) for p_ in paths if os.path.dirname(p_)})
+            dirs = list_dirs(ref_dir)  # every directory sbeppc creates, also those it leaves empty
             obstructions = [("directory-at-file-path", p_) for p_ in sample] + [("symlink-to-dev-full", p_) for p_ in sample[:3]] + \
                            [("dangling-symlink", p_) for p_ in sample[:3]] + [("file-at-directory-path", d_) for d_ in dirs]
             for oi, (okind, target) in enumerate(obstructions):
@@ -205,14 +235,15 @@ def main():
                 complete = False
                 if rco == 0:
                     try:
-                        complete = all(open(os.path.join(do, p_), "rb").read() == v for p_, v in ref.items())
+                        complete = all(open(os.path.join(do, p_), "rb").read() == v for p_, v in ref.items()) and \
+                            all(os.path.isdir(os.path.join(do, d_)) for d_ in dirs)
                     except OSError:
                         complete = False
                 rpl = {"schema": name, "schema_xml": xml, "obstruction": okind, "path": target, "exit": rco, "output": oo[-600:]}
                 if rco == 0 and not complete:
                     rep.violation("exit0-with-wrong-files", "obstructed/" + okind,
-                                  "%s: %s `%s` in the output tree: sbeppc exited 0 but the generated files do not read back "
-                                  "complete" % (name, okind, target), rpl)
+                                  "%s: %s `%s` in the output tree: sbeppc exited 0 but the generated tree does not read back "
+                                  "complete (a file differs or is missing, or a directory of the reference tree is not a directory)" % (name, okind, target), rpl)
                 elif rco != 0 and (rco < 0 or rco in (97, 98, 99, 134, 139)):
                     rep.violation("crash-after-fault", "obstructed/" + okind, "%s: sbeppc died (rc=%s) with %s `%s`: %s" % (
                         name, rco, okind, target, oo[-300:]), rpl)
